@@ -174,6 +174,10 @@ func TestConstructed(t *testing.T) {
 			return
 		}
 		want := renderBlocks(d.Blocks, false)
+		if nearMissCount > 0 {
+			kit.R.ClassN("spelling:near-miss-continuation-line", int64(nearMissCount))
+			nearMissCount = 0
+		}
 		if labelNLCount > 0 {
 			kit.R.ClassN("spelling:label-over-two-lines", int64(labelNLCount))
 			labelNLCount = 0
